@@ -124,3 +124,31 @@ Definition resolve_ok_single (t g : utree) : option string :=
        then Some "an added branch has a non-zero length or a support"
   else if negb (matrix_eqb (dist_matrix len0 t) (dist_matrix len0 g)) then Some "a tip-to-tip distance changed"
   else None.
+
+(** ** resolve keeps every branch of the input with all its data: the list of (leaf set below,
+    length, support, p-value) of the branches of [t] is included, as a multiset, in that of [g]
+    (Resolve does not change the rooting, so the leaf set below a branch is the same on both sides;
+    [usplits] carries no p-value) *)
+Fixpoint branch_data (t : utree) : list (list string * (Q * Q * Q)) :=
+  match t with
+  | UNode _ _ sl =>
+    flat_map (fun s => match s with
+                       | Some (e, c) => (sset (leaves c), (elen e, esup e, epv e)) :: branch_data c
+                       | None => [] end) sl
+  end.
+Definition data_eqb (a b : list string * (Q * Q * Q)) : bool :=
+  sset_eqb (fst a) (fst b) &&
+  qeqb (fst (fst (snd a))) (fst (fst (snd b))) && qeqb (snd (fst (snd a))) (snd (fst (snd b))) && qeqb (snd (snd a)) (snd (snd b)).
+Fixpoint data_remove (x : list string * (Q * Q * Q)) (l : list (list string * (Q * Q * Q))) : option (list (list string * (Q * Q * Q))) :=
+  match l with
+  | [] => None
+  | y :: r => if data_eqb x y then Some r else match data_remove x r with Some r' => Some (y :: r') | None => None end
+  end.
+Fixpoint data_msub (a b : list (list string * (Q * Q * Q))) : bool :=
+  match a with
+  | [] => true
+  | x :: r => match data_remove x b with Some b' => data_msub r b' | None => false end
+  end.
+Definition branches_kept (t g : utree) : option string :=
+  if data_msub (branch_data t) (branch_data g) then None
+  else Some "a branch of the input is missing or lost its length, support or p-value".
